@@ -405,7 +405,7 @@ func (g *G) record(t *tenant) {
 			req = rng.Pick(r, t.pending) // duplicate
 		}
 	case 1:
-		req = rng.Pick(r, []string{"", "r", "r1\x00", "\xff\xfe", "r10", "shared", "\xe2\x82\xac", "\xf0\x90\x80", "\xc0\xaf"})
+		req = rng.Pick(r, []string{"", "r", "r1\x00", "\xff\xfe", "r10", "shared", "\xe2\x82\xac", "\xf0\x90\x80", "\xc0\xaf", " r", "r ", "\tr1", "r1\n"})
 	}
 	amt := rng.Pick(r, []int{1, 2, 3, 7, 10, 50, 99, 400, 3000})
 	denom := t.denom
@@ -418,6 +418,10 @@ func (g *G) record(t *tenant) {
 		chain = world.ThisChain
 		contract = rng.Pick(r, contracts[:2])
 		token = rng.Pick(r, tokens[:4])
+		if !g.p.Isolate && r.P(1, 8) {
+			// a token id above 160 bits whose low 160 bits are the id of another token: the owner asked for is this token's, not that one's
+			token = "0x1" + strings.Repeat("0", 40-len(token)+2) + token[2:]
+		}
 	case 4, 5, 6, 7, 8:
 		chain = rng.Pick(r, []string{"1", "137", "1", "eth-2"})
 		contract = rng.Pick(r, contracts)
@@ -450,9 +454,66 @@ func (g *G) record(t *tenant) {
 	}
 }
 
+// rejectedTx emits a transaction of several messages whose last message is refused (a cancel for a request id that never existed),
+// so the whole transaction must leave no trace; then lets the accounts concerned act, which shows any residue.
+func (g *G) rejectedTx(t *tenant) {
+	r := g.r
+	admin := rng.Pick(r, t.admins)
+	fail := fmt.Sprintf("cancel %s %d %s", admin, t.id, e("nosuch"))
+	switch r.N(5) {
+	case 0:
+		// a shorter payout period that must not take effect
+		g.emit("atomic setperiod %s %d 1 ;; %s", admin, t.id, fail)
+		g.recordNow(t, admin)
+		g.block()
+		g.block()
+	case 1:
+		// an added admin that must stay locked out
+		x := rng.Pick(r, accs)
+		g.emit("atomic addadmin %s %d %s ;; %s", admin, t.id, x, fail)
+		g.emit("setperiod %s %d %d", x, t.id, 2+r.N(3))
+	case 2:
+		// a removed admin that must keep its rights
+		if len(t.admins) > 1 {
+			b := t.admins[len(t.admins)-1]
+			g.emit("atomic rmadmin %s %d %s ;; %s", t.admins[0], t.id, b, fail)
+			g.emit("setperiod %s %d %d", b, t.id, 2+r.N(3))
+		} else {
+			g.emit("atomic deposit %s %d 5 %s ;; %s", admin, t.id, e(t.denom), fail)
+		}
+	case 3:
+		// a deposit and a record that must not stay
+		g.emit("atomic deposit %s %d 7 %s ;; record %s %d %s 3 %s %s %s %s ;; %s", admin, t.id, e(t.denom), admin, t.id, e(fmt.Sprintf("x%d", t.nreq)), e(t.denom),
+			e(world.ThisChain), e(contracts[0]), e(tokens[0]), fail)
+		t.nreq++
+	case 4:
+		// a cancel that must be undone: the record stays pending and is paid later
+		if len(t.pending) > 0 {
+			g.emit("atomic cancel %s %d %s ;; %s", admin, t.id, e(rng.Pick(r, t.pending)), fail)
+		} else {
+			g.emit("atomic setperiod %s %d 0 ;; %s", admin, t.id, fail)
+		}
+	}
+}
+
+// recordNow records a payment for an NFT of this chain that has an owner (set here), so that it is payable at maturity.
+func (g *G) recordNow(t *tenant, admin string) {
+	g.emit("setowner %s %s %s", e(contracts[0]), e(tokens[0]), accs[7])
+	g.emit("fund %s 1000 %s", admin, e(t.denom))
+	g.emit("deposit %s %d 500 %s", admin, t.id, e(t.denom))
+	req := fmt.Sprintf("y%d", t.nreq)
+	t.nreq++
+	g.emit("record %s %d %s 5 %s %s %s %s", admin, t.id, e(req), e(t.denom), e(world.ThisChain), e(contracts[0]), e(tokens[0]))
+	t.pending = append(t.pending, req)
+}
+
 func (g *G) adminOp() {
 	r := g.r
 	t := g.pickTenant()
+	if !g.p.Isolate && r.P(1, 8) {
+		g.rejectedTx(t)
+		return
+	}
 	switch r.N(6) {
 	case 0, 1:
 		na := rng.Pick(r, accs)
@@ -495,6 +556,26 @@ func (g *G) adminOp() {
 		o := rng.Pick(r, accs)
 		g.emit("setowner %s %s %s", e(rng.Pick(r, contracts[:2])), e(rng.Pick(r, tokens[:4])), rng.Pick(r, []string{o, o, "none"}))
 	}
+}
+
+// blankTail appends a blank to the last entry of a vote-data token ("T:e,e;T:e"); entries are string tokens, so the entry is re-encoded.
+func blankTail(vd string) string {
+	if vd == "-" {
+		return vd
+	}
+	parts := strings.Split(vd, ";")
+	lp := parts[len(parts)-1]
+	if len(lp) <= 2 {
+		return vd
+	}
+	es := strings.Split(lp[2:], ",")
+	last := es[len(es)-1]
+	if last == "" || (last[0] != '=' && last[0] != 'x') {
+		return vd
+	}
+	es[len(es)-1] = e(world.Str(last) + " ")
+	parts[len(parts)-1] = lp[:2] + strings.Join(es, ",")
+	return strings.Join(parts, ";")
 }
 
 func containsFold(xs []string, x string) bool {
@@ -592,20 +673,35 @@ func (g *G) oracleOp() {
 			return
 		}
 		salt, vd, round := c.salt, c.vd, c.round
-		switch r.N(14) {
+		switch r.N(16) {
 		case 0:
 			salt = salt + "!" // wrong opening
 		case 1:
 			vd = g.voteData(v)
 		case 2:
 			round = rs + 2*g.vp
+		case 3:
+			vd = "-" // reveals nothing: not an opening of a commitment to something
+		case 4:
+			vd = blankTail(vd) // the last entry with a blank appended: a different string, not what was committed
 		}
 		g.emit("vote %s %s %s %d %s", feeder, vt, e(salt), round, vd)
 		if r.P(5, 6) {
 			delete(g.prev, v)
 		}
+		if g.inPrevote() && r.P(1, 3) {
+			// a second commitment in the same prevote window, after the first was revealed: vote and prevote of one validator coexist
+			salt2 := "again"
+			vd2 := g.voteData(v)
+			g.emit("prevote %s %s %s %d", feeder, vt, e(VoteHash(salt2, vd2)), rs)
+			g.prev[v] = &commit{round: rs, salt: salt2, vd: vd2}
+		}
 	case 10:
-		g.emit("consent %s %s", vt, rng.Pick(r, accs))
+		nf := rng.Pick(r, accs)
+		if r.P(1, 3) {
+			nf = feeder // back to the validator's own account
+		}
+		g.emit("consent %s %s", vt, nf)
 	case 11:
 		if g.p.Powers && r.P(1, 2) {
 			g.randPowers()
@@ -649,6 +745,12 @@ func (g *G) fillScript() {
 		t.nreq++
 		g.emit("record %s %d %s %d %s %s %s %s", t.admins[0], t.id, e(req), 1+r.N(5), e(t.denom), e(chain), e(c), e(tok))
 		t.pending = append(t.pending, req)
+	}
+	if !g.p.Isolate && r.P(1, 2) {
+		// several waiting records of one NFT stored ahead of another NFT's record: one tally fills them all
+		rec(lo, cY, tokY)
+		rec(lo, cY, tokY)
+		rec(hi, cX, tokX)
 	}
 	rec(hi, cY, tokY)
 	for uint64(g.height)%(2*g.vp) != 0 {
